@@ -7,7 +7,7 @@ from . import celx, evalx, hostfns
 from .core import Ctx, read_dump, pmap
 
 INV = "SPECIFICATION Spec\nCONSTANT TIER = \"%s\"\nINVARIANT MethodIsFunction\nINVARIANT Absorbed\nINVARIANT Strict\nINVARIANT OverrideOnlyWhenSupplied\nCHECK_DEADLOCK FALSE\n"
-CONFIGS = [(k, s) for k in ("module", "nested", "lambda", "object") for s in ("list", "dict")]
+CONFIGS = [(k, s) for k in ("module", "nested", "lambda", "object", "bound", "static", "classmethod") for s in ("list", "dict")]
 
 
 def has_logic(prog):
@@ -74,8 +74,8 @@ def run(ctx: Ctx) -> int:
                         "host functions are variadic Python callables; arguments that are themselves errors are not generated"]
     return ctx.finish(rule="TLC enumerates call shapes (global / method, 0-3 arguments, nested, under every absorbing operator, inside macro bodies, "
                            "shadowing size, unbound names); expected outcome and call log depend on the shape only; each program is built with the "
-                           "functions supplied as list / dict of module-level defs, nested defs, lambdas and callable objects under both runner "
-                           "classes (16 configurations) and every configuration must give the specified outcome and calls. distinct = programs x configurations",
+                           "functions supplied as list / dict of module-level defs, nested defs, lambdas, callable objects under both runner "
+                           "classes; bound, static and class methods of a module-level class as well (28 configurations) and every configuration must give the specified outcome and calls. distinct = programs x configurations",
                       extra={"distinct_nontrivial": len(items) * len(CONFIGS) * 2})
 
 
